@@ -76,7 +76,10 @@ func runPolling(env *sess.Env, c *PollCase, dir string) (violation string, timin
 	xN, _ := disk.Observe(roots[x])
 	yN, _ := disk.Observe(roots[y])
 	oneWay := c.Mode == "one-way-safe" || c.Mode == "one-way-replica"
-	mustHalt := !oneWay || x == "alpha" || c.Trigger == "empty-root" || c.Trigger == "root-to-file"
+	// One-way modes never change alpha, and one-way-safe keeps a beta root
+	// that became a file (a modification on the protected side: a conflict,
+	// nothing to propagate); one-way-replica would replace it and must halt.
+	mustHalt := !oneWay || x == "alpha" || c.Trigger == "empty-root" || (c.Trigger == "root-to-file" && c.Mode == "one-way-replica")
 	// Observe for up to 6 s: the untouched root must never change; once halted
 	// the session must stay halted.
 	halted := false
